@@ -81,7 +81,7 @@ impl Check for RigCheck {
     }
     fn budget(&self, tier: Tier) -> Budget {
         match tier {
-            Tier::Quick => Budget { runs: 12_000, max_secs: 45.0 },
+            Tier::Quick => Budget { runs: 10000, max_secs: 40.0 },
             Tier::Thorough => Budget { runs: 3_000_000, max_secs: 900.0 },
         }
     }
